@@ -171,6 +171,12 @@ def refStep (r : IRef) (t0 : List String) (obs : String) : IRef × String :=
                   | .error _ => false
                 | _ => false
               if clearLeak then ("FAIL C02 a handshake reply carries the payload unsealed although not both ends enabled plain", ar1) else
+              -- C16: a genuinely signed message whose parts are all well-formed (cipher ids and parts this version does not know are skipped, so
+              -- that newer peers stay compatible) is never rejected as unparsable
+              let wellFormed : Bool := match gm.bytes with
+                | 255 :: gb => (match InitMsg.readFields ((gb.drop 8).length + 1) (gb.drop 8) {} with | .ok _ => true | .error _ => false)
+                | _ => false
+              if ires = "err:parse" && wellFormed then ("FAIL C16 a genuinely signed handshake message with well-formed parts was rejected as unparsable", ar1) else
               if ires.startsWith "init " || ires.startsWith "initnr" then
                 -- C05 / C06 at completion
                 let partnerParty := (lookupS r.atts gm.sender).bind (fun a => lookupS r.parties a.party)
